@@ -190,7 +190,7 @@ func (env *c10Env) predDecls(used map[string]*c10Type) string {
 	return b.String()
 }
 
-var c10Strs = []string{"", "a", "b", "a b", "abc", "A"}
+var c10Strs = []string{"", "a", "b", "a b", "abc", "A", "a\tb", "q\"r"}
 
 func c10GenVal(r *Rng, t *c10Type, depth int) *c10Val {
 	v := &c10Val{T: t}
@@ -309,7 +309,7 @@ func (v *c10Val) fo(r *Rng, used map[string]*c10Type, nested bool) string {
 	case "int":
 		return fmt.Sprint(v.I)
 	case "string":
-		return fmt.Sprintf("%q", v.S)
+		return c10Spell(r, v.S)
 	case "bool":
 		return fmt.Sprint(v.B)
 	case "tuple":
@@ -341,6 +341,32 @@ func (v *c10Val) fo(r *Rng, used map[string]*c10Type, nested bool) string {
 }
 
 var c10PathCount = map[string]int{}
+
+// c10Spell writes the string s as a "..." literal, choosing a spelling per character: itself, \xHH,
+// \ooo or \u00HH (the scanner keeps escapes verbatim for the Go compiler): the same VALUE by
+// different source texts.
+func c10Spell(r *Rng, s string) string {
+	var b strings.Builder
+	b.WriteByte('"')
+	for i := 0; i < len(s); i++ {
+		ch := s[i]
+		switch r.Intn(8) {
+		case 0:
+			fmt.Fprintf(&b, "\\x%02x", ch)
+		case 1:
+			fmt.Fprintf(&b, "\\%03o", ch)
+		case 2:
+			fmt.Fprintf(&b, "\\u%04x", ch)
+		default:
+			if ch == '"' || ch == '\\' {
+				b.WriteByte('\\')
+			}
+			b.WriteByte(ch)
+		}
+	}
+	b.WriteByte('"')
+	return b.String()
+}
 
 func c10Less(a, b *c10Val) bool {
 	if a.T.Kind == "string" {
@@ -630,8 +656,18 @@ func c10GenGroup(r *Rng, env *c10Env, idx int, used map[string]*c10Type) *c10Gro
 }
 
 func c10CmpSrc(idx int, prelude, a, b, cc string) string {
+	return c10CmpSrcI(idx, prelude, a, b, cc, false)
+}
+
+// inline: the operands of every comparison are the expressions themselves (literal = literal), not
+// variables bound to them
+func c10CmpSrcI(idx int, prelude, a, b, cc string, inline bool) string {
 	var sb strings.Builder
-	fmt.Fprintf(&sb, "let cmp%d () =\n%s  let a = %s\n  let b = %s\n  let c = %s\n", idx, prelude, a, b, cc)
+	if inline {
+		fmt.Fprintf(&sb, "let cmp%d () =\n%s", idx, prelude)
+	} else {
+		fmt.Fprintf(&sb, "let cmp%d () =\n%s  let a = %s\n  let b = %s\n  let c = %s\n", idx, prelude, a, b, cc)
+	}
 	for _, l := range c10Labels {
 		x, y, op := "a", "b", "="
 		switch l {
@@ -648,6 +684,10 @@ func c10CmpSrc(idx int, prelude, a, b, cc string) string {
 		case "ncb":
 			x, y, op = "c", "b", "<>"
 		}
+		if inline {
+			tr := map[string]string{"a": a, "b": b, "c": cc}
+			x, y = tr[x], tr[y]
+		}
 		fmt.Fprintf(&sb, "  frt.Printf1 \"%d %s %%v\\n\" (%s %s %s)\n", idx, l, x, op, y)
 	}
 	sb.WriteString("\n")
@@ -660,6 +700,15 @@ func c10GenGroupAt(r *Rng, env *c10Env, idx int, used map[string]*c10Type, depth
 		if g := c10GenDerived(r, env, idx, used, depth); g != nil {
 			return g
 		}
+	case 3:
+		// two spellings of one string (and a different string), literal against literal
+		ts := &c10Type{Kind: "string"}
+		g := &c10Group{Idx: idx, T: ts, Kind: "literals"}
+		g.A = &c10Val{T: ts, S: Choose(r, []string{"A", "abc", "a b", "a\tb", "q\"r", "AB", "\x01z"})}
+		g.B = &c10Val{T: ts, S: g.A.S}
+		g.C = &c10Val{T: ts, S: Choose(r, []string{g.A.S, g.A.S + "A", "x41", "\\x41", "101"})}
+		g.Src = c10CmpSrcI(idx, "", g.A.fo(r, used, true), g.B.fo(r, used, true), g.C.fo(r, used, true), true)
+		return g
 	case 2:
 		// same case on both sides, equal leading components: a == fast path would panic here
 		t := Choose(r, env.holders)
@@ -694,6 +743,15 @@ func c10GenGroupAt(r *Rng, env *c10Env, idx int, used map[string]*c10Type, depth
 		g.C = next(g.B)
 	} else {
 		g.C = next(g.A)
+	}
+	switch t.Kind {
+	case "int", "string", "bool":
+		// scalars also literal against literal (a compile-time shortcut would see the source spelling)
+		if r.Chance(1, 2) {
+			g.Kind = "literals"
+			g.Src = c10CmpSrcI(idx, "", g.A.fo(r, used, true), g.B.fo(r, used, true), g.C.fo(r, used, true), true)
+			return g
+		}
 	}
 	g.Src = c10CmpSrc(idx, "", g.A.fo(r, used, false), g.B.fo(r, used, false), g.C.fo(r, used, false))
 	return g
